@@ -23,7 +23,7 @@ def cases(draw, mechs=MECHS):
     case = {'mech': mech, 'domain': {'attrs': names, 'shape': sizes}, 'n': n, 'data_seed': draw(st.integers(0, 2**31 - 1)),
             'skew': draw(st.sampled_from([0.0, 1.0, 2.5])),
             'eps': draw(logf(0.05, 10.0)) if draw(st.integers(0, 7)) else draw(logf(3e-4, 0.05)),
-            'delta': draw(st.sampled_from([1e-9, 1e-6, 1e-3, 1e-12])),
+            'delta': draw(st.sampled_from([1e-9, 1e-6, 1e-3, 1e-12, 1e-10, 1e-14])),
             'np_seed': draw(st.integers(0, 2**31 - 1)), 'nb_seed': draw(st.integers(0, 2**31 - 1)),
             'neighbour': draw(st.sampled_from(['add', 'remove']))}
     if mech == 'aim':
@@ -37,6 +37,9 @@ def cases(draw, mechs=MECHS):
         # model-size cap as a multiple of the size of the model over the one-way marginals (None = default 80 MB):
         # a binding cap makes the candidate set grow from round to round
         case['size_cap'] = draw(st.sampled_from([None, None, 1.2, 2.0, 4.0]))
+        # mechanism objects configured earlier in the same process with other privacy parameters (looser delta, larger
+        # epsilon): the budget of this run must not depend on them
+        case['prior_objects'] = draw(st.booleans())
     elif mech == 'mwem':
         case['rounds'] = draw(st.integers(1, 5))
         case['noise'] = draw(st.sampled_from(['gaussian', 'laplace']))
@@ -118,6 +121,8 @@ def invoke(case, data, extra=None):
         if case.get('size_cap') is not None:
             shape = case['domain']['shape']
             kw['max_model_size'] = case['size_cap'] * sum(shape) * 8 / 2.0 ** 20
+        if case.get('prior_objects'):
+            mod.AIM(case['eps'], min(case['delta'] * 100, 0.1)); mod.AIM(case['eps'] * 2, case['delta'])
         mech = mod.AIM(case['eps'], case['delta'], rounds=case['rounds'], **kw)
         return mech.run(data, [(tuple(cl), w) for cl, w in case['workload']])
     if m == 'mwem':
